@@ -604,6 +604,9 @@ def _peak_is_too_narrow(
     fwhm = peak.fwhm(popt)
     coord = data.coords[data.dim]
     center_idx = np.argmin(abs(coord.values - popt['peak_loc'].values))
+    # Keep both neighbors inside the data (non-uniform grids can put the point
+    # closest to the fitted location on the edge even if the peak is not near it).
+    center_idx = min(max(int(center_idx), 1), len(coord) - 2)
     # Average of bins around center index.
     # Bins don't normally vary quickly, so this is a good approximation.
     bin_width = (coord[center_idx + 1] - coord[center_idx - 1]) / 2
